@@ -40,7 +40,8 @@ type Cmd struct {
 	From   int      `json:"from"`
 	Inputs [][]int  `json:"inputs,omitempty"` // corrupt: byte strings to decode
 	Seq    []Val    `json:"seq,omitempty"`    // stream: values of further records
-	Scheds [][]int  `json:"scheds,omitempty"` // stream: chunk schedules
+	SeqEnc [][]int  `json:"seqenc,omitempty"` // stream: their reference encodings
+	Scheds [][]int  `json:"scheds,omitempty"` // stream: fragmentation patterns
 	Errs   []string `json:"errs,omitempty"`   // fault kinds
 	V1Pid  string   `json:"v1pid,omitempty"`  // evolve: package of the older schema version
 	SkipB  []bool   `json:"skipb,omitempty"`  // corrupt: inputs not to run through UnmarshalBebop
@@ -76,9 +77,12 @@ type Event struct {
 	Style    string  `json:"style,omitempty"`
 	Sched    *int    `json:"sched,omitempty"`
 	Rec      *int    `json:"rec,omitempty"`
-	Overask  bool    `json:"overask,omitempty"`
+	Overask  bool    `json:"overask"`
 	Written  []int   `json:"written,omitempty"`
 	Idx      *int    `json:"idx,omitempty"`
+	Ends     []int   `json:"ends,omitempty"`
+	Req      *int    `json:"req,omitempty"`
+	Got      *int    `json:"got,omitempty"`
 }
 
 func ip(i int) *int    { return &i }
@@ -526,10 +530,12 @@ func (w *faultWriter) Write(p []byte) (int, error) {
 }
 
 // opWFault: the k-th Write fails, for every k below the number of writes of a fault-free run.
-func opWFault(pi *pkgInfo, c *Cmd) {
+func opWFault(pi *pkgInfo, c *Cmd) { opWFaultBase(pi, c, 0) }
+
+func opWFaultBase(pi *pkgInfo, c *Cmd, m0 int) {
 	ref := bytesFromInts(c.Ref)
 	rec := buildRecord(pi, c.Root, c.V, c.Cid%2 == 0)
-	m := 0
+	m := m0
 	begin(c.Cid, m, &Event{Ev: "wcount", API: "EncodeBebop"})
 	w0 := &recWriter{}
 	e0 := &Event{Ev: "wcount", Cid: c.Cid, M: m, API: "EncodeBebop"}
@@ -576,6 +582,11 @@ func runCmd(c *Cmd) {
 		opCuts(pi, c)
 	case "corrupt":
 		opCorrupt(pi, c)
+	case "faults":
+		opRFault(pi, c)
+		c2 := *c
+		c2.From = 0
+		opWFaultBase(pi, &c2, 1000000)
 	case "rfault":
 		opRFault(pi, c)
 	case "wfault":
